@@ -41,6 +41,17 @@ def find_adapters(F):
             wr = [s_ for _, s_ in b.iter_stmts() if s_["k"] == "assign" and last_field(s_["place"]) == a.param]
             if repl or wr:
                 a.update = f
+        # an update function written as a free function over the projected fields (`update_count(count: &mut Option<usize>, buffer, n)`):
+        # recognised so that its absence as a method is not mistaken for a missing anchor; its own rules are not evaluated on that shape
+        a.update_alt = None
+        if a.update is None:
+            for f in fns:
+                b = f.built
+                if f.kind != "fn" or not str(b.locals[0]["ty"]).startswith("std::option::Option<") or "VectorDiff<" not in str(b.locals[0]["ty"]):
+                    continue
+                muts = [i for i in range(1, b.arg_count + 1) if re.match(r"^&mut (usize|std::option::Option<usize>)$", str(b.locals[i]["ty"]))]
+                if muts and any("usize" == str(b.locals[i]["ty"]) for i in range(1, b.arg_count + 1)):
+                    a.update_alt = f
         # poll function: has the caller's Context, and (itself, or with its private helpers inlined) hands the polled items to
         # push_into_*_buf; the one whose own body does so is preferred (the Stream impl merely delegates to it)
         cands = [f for f in fns if f.kind == "assoc" and wakers.cx_param(f.built) is not None]
